@@ -71,7 +71,8 @@ type c07aConn struct {
 }
 
 type c07aScenario struct {
-	botHi     bool // the remote speaker's BGP Identifier is higher than the daemon's
+	botHi     bool // the remote speaker dominates the collision (higher BGP Identifier, or equal identifier and larger AS)
+	sameID    bool
 	in, out   *simBot
 	c         map[string]*c07aConn // "in", "out"
 	AdminDown bool
@@ -93,7 +94,10 @@ type c07aScenario struct {
 
 func init() {
 	simScenarios["fsmact"] = func(arg string) simScenario {
-		return &c07aScenario{botHi: strings.Contains(arg, "hi"), c: map[string]*c07aConn{"in": {}, "out": {}}}
+		// "eq": the remote has the SAME BGP Identifier as the daemon (legal between ASes) and a 4-octet AS
+		// number above the local one: RFC 6286 2.3 then lets the larger AS number decide, so the remote
+		// dominates as in "hi" (its OPEN carries AS_TRANS in the 2-octet field: the real AS has to be used)
+		return &c07aScenario{botHi: strings.Contains(arg, "hi") || strings.Contains(arg, "eq"), sameID: strings.Contains(arg, "eq"), c: map[string]*c07aConn{"in": {}, "out": {}}}
 	}
 }
 
@@ -136,7 +140,11 @@ func (sc *c07aScenario) Setup(w *simWorld) {
 	if sc.botHi {
 		id = [4]byte{200, 1, 1, 1}
 	}
-	spec := simBotSpec{Name: "p", IP: [4]byte{10, 0, 0, 1}, AS: 65001, RouterID: id, HoldTime: c07Hold,
+	as := uint32(65001)
+	if sc.sameID {
+		id, as = [4]byte{10, 0, 0, 254}, 4200000001
+	}
+	spec := simBotSpec{Name: "p", IP: [4]byte{10, 0, 0, 1}, AS: as, RouterID: id, HoldTime: c07Hold,
 		Neighbor: func(n *oc.Neighbor) {
 			n.Transport.Config.PassiveMode = false
 			n.Transport.Config.LocalAddress = netip.AddrFrom4(w.serverIP)
@@ -243,6 +251,9 @@ func (sc *c07aScenario) fail(n, notif string) {
 
 func (sc *c07aScenario) openMsg(b *simBot, badAS bool) []byte {
 	as := uint16(b.spec.AS)
+	if b.spec.AS > 65535 {
+		as = bgp.AS_TRANS
+	}
 	if badAS {
 		as = 65099
 	}
@@ -692,7 +703,7 @@ func (sc *c07aScenario) Key(w *simWorld) string {
 func TestVerif_C07_Active(t *testing.T) {
 	r := vr.Start(t, "C07", "active")
 	defer r.Finish()
-	r.Rule = "explicit-state BFS over event histories {outbound dial completes / is refused / times out, inbound connect, on either connection: OPEN valid / bad AS, KEEPALIVE, UPDATE, NOTIFICATION, remote close; wait 1 s / 30 s / exactly to the next hold or keepalive deadline; disable, enable, delete peer} on an ACTIVE peer of the real daemon in virtual time, remote BGP Identifier {lower, higher} than the daemon's, in lock-step with one reference RFC 4271 FSM per connection joined by the collision rule of section 6.8; non-trivial = distinct (reference state, daemon state) pair"
+	r.Rule = "explicit-state BFS over event histories {outbound dial completes / is refused / times out, inbound connect, on either connection: OPEN valid / bad AS, KEEPALIVE, UPDATE, NOTIFICATION, remote close; wait 1 s / 30 s / exactly to the next hold or keepalive deadline; disable, enable, delete peer} on an ACTIVE peer of the real daemon in virtual time, remote BGP Identifier {lower, higher, equal with a larger 4-octet AS} than the daemon's, in lock-step with one reference RFC 4271 FSM per connection joined by the collision rule of section 6.8; non-trivial = distinct (reference state, daemon state) pair"
 	r.Assumptions = append(r.Assumptions, "build-time dial seam: the daemon's net.Dialer.DialContext call and the connect-retry jitter go through hook variables (jitter factor fixed at 1.0)",
 		"hold 9 s, keepalive 4 s, connect-retry 6 s; where the RFC leaves a choice (tracking or refusing a second connection before OpenConfirm, Idle vs Active without a connection, when exactly to dial) every permitted behaviour is accepted")
 	if r.ReplayPath() != "" {
@@ -710,6 +721,7 @@ func TestVerif_C07_Active(t *testing.T) {
 	}
 	simExplore(t, r, simExploreCfg{Scenario: "fsmact", Arg: "lo", Depth: depth, Budget: budget})
 	simExplore(t, r, simExploreCfg{Scenario: "fsmact", Arg: "hi", Depth: depth, Budget: budget})
+	simExplore(t, r, simExploreCfg{Scenario: "fsmact", Arg: "eq", Depth: depth, Budget: budget})
 	if len(r.Violations) == 0 {
 		for _, k := range []string{"act-established-on-out", "act-established-on-in", "act-dial-pending"} {
 			if r.Outcomes[k] == 0 {
